@@ -203,6 +203,8 @@ func (g *histGen) genCopyStmt() (*StmtProg, []pgwire.FMsg) {
 	ncols := r.Range(1, 4)
 	if r.Chance(1, 15) {
 		ncols = r.PickInt(31, 32, 33, 40, 100, 300) // a wide table
+	} else if r.Chance(1, 15) {
+		ncols = 0 // no declared columns: COPY cannot be started (no CopyInResponse, the call fails)
 	}
 	sp := &StmtProg{Cols: genCols(r, ncols, baseOIDs)}
 	fmtc := int16(r.Intn(2))
